@@ -38,12 +38,13 @@ Definition client_msgs (c : nat) (os : list out) : list tok :=
   flat_map (fun o => match o with
                      | ONotice c' _ => if Nat.eqb c c' then [TN 1] else []
                      | OFinal c' _ st => if Nat.eqb c c' then [TN (status_code st)] else []
-                     | OSend _ _ => []
+                     | OSend _ _ _ => []
+                     | ODone _ _ => []
                      end) os.
 
 Definition worker_recv (w : nat) (os : list out) : list rid :=
   flat_map (fun o => match o with
-                     | OSend w' r => if Nat.eqb w w' then [r] else []
+                     | OSend w' r _ => if Nat.eqb w w' then [r] else []
                      | _ => []
                      end) os.
 
